@@ -166,4 +166,15 @@ PROPS = {
         "trusted_base": BASE + ["Go runtime MemStats.TotalAlloc as the allocation measure; RLIMIT_AS in the child; the enumerated mutation families (not coverage-guided fuzzing: no Go fuzzing engine corpus is kept; stated in DESIGN.md)"],
         "assumptions": [CORR, "never-panics / never-loops / proportional allocation of the Go code are shown on the enumerated inputs only"],
     },
+    "C15": {
+        "modules": ["SifVerif.Props.C15"],
+        "theorems": ["dataType_table", "arch_table", "hash_table", "sbom_table", "changed_flags", "id_parse", "flag_decls", "C15_id_32bit", "C15_add_is_library_add", "C15_del_is_library_delete", "C15_setprim_is_library_setprim", "C15_argument_error_untouched", "C15_read_only", "C15_failed_unchanged", "C15_add_then_dump"],
+        "mode": "hist",
+        "technique": "Lean 4 model of siftool's argument translation (Model/Siftool.lean) over the library model, with its tables checked by `decide` against facts regenerated from pkg/siftool on every run, theorems about what each command is and leaves behind + differential correspondence on histories of invocations of the siftool binary built from the working tree (exit status, dump output, file bytes and full view after every command) + implementation oracle (header/list/info output vs the library's accessors; failing command leaves the view unchanged)",
+        "level": "proof",
+        "level_text": "proof: the data-type, architecture, hash-type (composed with the library's sifHashType) and SBOM tables of the model are the tables in pkg/siftool/add.go now, presence - not value - decides for exactly link/alignment/filename, every <id> is parsed base 10 into 32 bits (facts regenerated from the source, compared by decide); an <id> is accepted only as a decimal numeral below 2^32 (C15_id_32bit); add/del/setprim are exactly load + the library operation with the translated arguments + the resulting bytes (C15_*_is_library_*); an argument error leaves the file untouched (C15_argument_error_untouched) and a failing library operation leaves a file that loads with the same header, descriptors and object contents (C15_failed_unchanged); header/list/info/dump return the file unchanged (C15_read_only); after a successful add, dump of the new ID prints exactly the object file's bytes (C15_add_then_dump). Tie: the siftool binary is built from $REPO on every run; histories of new/add/del/setprim/dump/info/header/list with valid and invalid arguments (every add flag, present/absent/zero, unparsable values, IDs that are non-numeric, negative, absent, beyond 32 and 64 bits with live low bits, payloads from empty to multi-megabyte with arbitrary bytes) are executed by the binary and by Cli.run; exit status, dump output, the file's bytes and view after every command must agree; header/list/info output is compared field by field with the library's accessors; a failing command must print a message and leave the view unchanged.",
+        "summary": "siftool tables = source tables; mutating command = load + library op with translated args; failure leaves view unchanged; dump(add(x)) = x",
+        "trusted_base": BASE + ["cobra/pflag flag parsing (unparsable flag values are expected to fail, not modelled)", "text/tabwriter rendering of header/list/info is compared by an independent re-rendering in the harness, not modelled in Lean"],
+        "assumptions": [CORR],
+    },
 }
